@@ -150,6 +150,23 @@ func execOp(line string) (res string) {
 		}
 		k := bip32.NewExtendedKey([]byte{1, 2, 3, 4}, B(0), make([]byte, 32), make([]byte, 4), 0, 0, false)
 		return "ok " + hx([]byte(k.Address(&chaincfg.Params{Name: "n" + a[1], LegacyPubKeyHashAddrID: byte(I(1))})))
+	case "addr.seq":
+		// the SAME key object and the SAME *Params, whose version byte is changed between calls
+		if !argc(2) {
+			return bad
+		}
+		k := bip32.NewExtendedKey([]byte{1, 2, 3, 4}, B(0), make([]byte, 32), make([]byte, 4), 0, 0, false)
+		params := &chaincfg.Params{Name: "seq"}
+		out := "ok"
+		for _, ids := range strings.Split(a[1], ",") {
+			id, err := strconv.Atoi(ids)
+			if err != nil {
+				return bad
+			}
+			params.LegacyPubKeyHashAddrID = byte(id)
+			out += " " + hx([]byte(k.Address(params)))
+		}
+		return out
 	case "hash.sha256":
 		return "ok " + hx(crypto.Sha256(B(0)))
 	case "hash.sha256d":
